@@ -63,6 +63,7 @@ void World::exec(const Step &s)
     else if (op == "satpart")   opSatPart(s);
     else if (op == "reorder")   opReorder(s);
     else if (op == "io")        opIO(s);
+    else if (op == "ioread")    opIORead(s);
     else if (op == "index")     opIndexSet(s);
     else if (op == "bigcard")   opBigCard(s);
     else if (op == "misuse")    opMisuse(s);
